@@ -39,12 +39,13 @@ D5 == [ int1 |-> <<"int", 1>>, f1 |-> <<"f64", FALSE, <<1>>, 0>>, f01 |-> <<"f64
         s1 |-> <<"str", <<49>>>>, sa |-> <<"str", <<97>>>>, nl |-> <<"nil">>, np |-> <<"nilptr">>, bt |-> <<"bool", TRUE>>,
         i32 |-> <<"int32", -2>>, d3 |-> <<"dec", FALSE, <<3>>, -1>>, m5 |-> <<"map", [k |-> <<"int", 1>>]>>, t5 |-> <<"time", 19000, 0, 0>> ]
 \* C16: shapes
-D16 == [ m |-> <<"map", [a |-> <<"map", [b |-> <<"map", [a |-> <<"int", 7>>, z |-> <<"nil">>]>>, z |-> <<"int", 0>>, n |-> <<"nilptr">>]>>,
+\* (two integers no float64 holds: 2^62 + 1 nested, 2^53 + 1 at the top)
+D16 == [ m |-> <<"map", [a |-> <<"map", [b |-> <<"map", [a |-> <<"int64", FALSE, <<4,6,1,1,6,8,6,0,1,8,4,2,7,3,8,7,9,0,5>>>>, z |-> <<"nil">>]>>, z |-> <<"int", 0>>, n |-> <<"nilptr">>]>>,
                          b |-> <<"str", <<120>>>>, z |-> <<"nil">>, len |-> <<"int", 3>>]>>,
          tm |-> <<"tmapint", [a |-> 5, z |-> 0]>>,
          st |-> <<"struct", [A |-> <<"int", 4>>, B |-> <<"map", [a |-> <<"f64", FALSE, <<2,5>>, -1>>]>>, N |-> <<"nilptr">>, P |-> <<"str", <<112>>>>], <<"c">>>>,
          nm |-> <<"nilmap">>, ns |-> <<"nilslice">>,
-         np |-> <<"nilptr">>, nl |-> <<"nil">>, s |-> <<"str", <<97>>>>, n |-> <<"int", 3>>, a |-> <<"int32", 9>>,
+         np |-> <<"nilptr">>, nl |-> <<"nil">>, s |-> <<"str", <<97>>>>, n |-> <<"int64", TRUE, <<9,0,0,7,1,9,9,2,5,4,7,4,0,9,9,3>>>>, a |-> <<"int32", 9>>,
          len |-> <<"int", 99>>, abs |-> <<"str", <<104>>>>, bt |-> <<"bool", FALSE>>, sl |-> <<"slice", <<<<"int", 1>>>>>>,
          tt |-> <<"time", 0, 0, 0>> ]
 \* C07: locals, caller-owned numbers, recorder
